@@ -43,7 +43,7 @@ class _Dev(object):
 
 
 class ScriptFrontend(nfc.clf.ContactlessFrontend):
-    def __init__(self, clock, role, brty, frames, atr_req=None, dep_req=None, steps=400):
+    def __init__(self, clock, role, brty, frames, atr_req=None, dep_req=None, steps=400, jam=None):
         # no device: the attributes ContactlessFrontend.__init__ would create
         self.device = _Dev()
         self.lock = threading.Lock()
@@ -56,6 +56,8 @@ class ScriptFrontend(nfc.clf.ContactlessFrontend):
         self.calls = 0
         self.steps = steps
         self.listened = False
+        self.jam = jam          # (k, q): when the script is used up the peer keeps sending corrupted frames, each
+        self.jammed = 0         # max(k, granted // q) ms after the call (silence if the granted time-out is shorter)
 
     # -- what the stack would hear on the air -------------------------------------------------
     def _tick(self):
@@ -102,6 +104,13 @@ class ScriptFrontend(nfc.clf.ContactlessFrontend):
         self.sent.append(None if send_data is None else bytes(send_data))
         self.clock.now += 0.001
         if not self.frames:
+            if self.jam is not None:
+                k, q = self.jam
+                d = max(k, int((timeout or 0) * 1000) // q) * 0.001
+                if 0 < d <= (timeout or 0):
+                    self.jammed += 1
+                    self.clock.now += d
+                    raise nfc.clf.TransmissionError('sim: frame with CRC error')
             self.clock.now += max(timeout or 0, 0.001)
             raise nfc.clf.TimeoutError('sim: the peer is silent')
         f = self.frames.popleft()
@@ -129,11 +138,11 @@ class installed(object):
         nfc.dep.time, llcmod.time, nfc.clf.time, nfc.dep.os = self.saved
 
 
-def run_connect(role, brty, frames, atr_req=None, dep_req=None, on_connect=None, steps=400):
+def run_connect(role, brty, frames, atr_req=None, dep_req=None, on_connect=None, steps=400, jam=None):
     """ContactlessFrontend.connect(llcp=...) against the scripted peer.
     -> (observation, frontend).  observation: 'ret <value>' | 'exc <class>: <text>'"""
     clock = Clock()
-    clf = ScriptFrontend(clock, role, brty, frames, atr_req, dep_req, steps)
+    clf = ScriptFrontend(clock, role, brty, frames, atr_req, dep_req, steps, jam)
     info = {}
 
     def terminate():
@@ -156,6 +165,7 @@ def run_connect(role, brty, frames, atr_req=None, dep_req=None, on_connect=None,
         except BaseException as e:  # noqa: everything that leaves connect() is the observation
             obs = 'exc %s: %s' % (type(e).__name__, str(e)[:80])
     clf.info = info
+    clf.elapsed = clock.now
     return obs, clf
 
 
